@@ -64,7 +64,7 @@ CHECKS['C08'] = dict(
     text="Same machine; every action owns at most one object (FrameOne) and never a cell (CellsImmutable), model-checked by TLC. Random interleavings "
          "of 30-60 calls over a pool of derived objects are recorded with the full projection (bits, refs, hash, sha256 of to_boc) of every live "
          "object after every call; TLC checks the frame condition, immutability, argument preservation and history-independence of Cell.order.",
-    note=BAGNOTE, tech="TLA+ frame conditions as action properties (TLC) + trace validation with full-state logging after every call", ref="8/C08")
+    note=BAGNOTE, tech="TLA+ frame conditions as action properties (TLC) + TLC-simulated behaviours of the machine replayed into the library + trace validation with full-state logging after every call", ref="8/C08")
 CHECKS['C09'] = dict(
     text="TonHashmap defines the Patricia tree of a map and an independent parser for all label kinds; TLC checks Parse(Build(m)) = m for every "
          "key set of width 3 (4 thorough) under 7 label policies, plain and augmented. Every such key set, wider sparse sets and random sets "
